@@ -117,6 +117,14 @@ def recorder(name, beh=None):
         def on_upstream_connection_close(self):
             rec('on_upstream_connection_close', None)
 
+        def do_intercept(self, request):
+            # consulted only when TLS interception is configured; recorded only on demand (beh has the key)
+            if 'do_intercept' in beh:
+                rec('do_intercept', (request.method, request.path, tags(request)))
+                if beh['do_intercept'][0] == 'drop':
+                    return False
+            return True
+
         def on_access_log(self, context):
             rec('on_access_log', tuple(sorted(k for k in context if k.startswith('tag_'))))
             act = beh.get('on_access_log', ('pass', None))
